@@ -171,6 +171,20 @@ func (bal *BalanceGslb) ReloadAll(gslbConf gslb_conf.GslbClusterConf,
 }
 
 func (bal *BalanceGslb) reload(gslbConf gslb_conf.GslbClusterConf) error {
+	// validate the new conf before anything is touched: a rejected reload must not
+	// change weights or release sub clusters of the table that keeps serving
+	confWeight := 0
+	for _, weight := range gslbConf {
+		if weight > 0 {
+			confWeight += weight
+		}
+	}
+	if confWeight == 0 {
+		// should never be here, as ClusterCheck return true
+		log.Logger.Critical("gslb total weight = 0 [%s]", bal.name)
+		return fmt.Errorf("gslb total weight = 0 [%s]", bal.name)
+	}
+
 	// create new SubClusterList
 	var subListNew SubClusterList
 
